@@ -720,6 +720,19 @@ class PDFPageInterpreter:
     def do_W_a(self) -> None:
         """Set clipping path using even-odd rule"""
 
+    @staticmethod
+    def _initial_color(cs: PDFColorSpace) -> Optional[Color]:
+        """The colour a colour space starts with (ISO 32000-1 Table 74, CS)."""
+        n = cs.ncomponents
+        if cs.name == "Pattern" or not isinstance(n, int) or n < 1:
+            return None
+        if cs.name == "DeviceCMYK":
+            return (0.0, 0.0, 0.0, 1.0)
+        v = 1.0 if cs.name in ("Separation", "DeviceN") else 0.0
+        if n == 1:
+            return v
+        return cast(Color, tuple([v] * n))
+
     def do_CS(self, name: PDFStackT) -> None:
         """Set color space for stroking operations
 
@@ -730,6 +743,8 @@ class PDFPageInterpreter:
         except KeyError:
             if settings.STRICT:
                 raise PDFInterpreterError("Undefined ColorSpace: %r" % name)
+            return
+        self.graphicstate.scolor = self._initial_color(self.scs)
 
     def do_cs(self, name: PDFStackT) -> None:
         """Set color space for nonstroking operations"""
@@ -738,6 +753,8 @@ class PDFPageInterpreter:
         except KeyError:
             if settings.STRICT:
                 raise PDFInterpreterError("Undefined ColorSpace: %r" % name)
+            return
+        self.graphicstate.ncolor = self._initial_color(self.ncs)
 
     def do_G(self, gray: PDFStackT) -> None:
         """Set gray level for stroking operations"""
